@@ -257,7 +257,8 @@ def main(modname, argv):
     overridden = a.runs is not None or a.start != 0 or a.opt or a.time_cap is not None
     if not a.no_evidence and results and (not overridden or a.force_evidence):
         if True:
-            core.write_evidence(prop, tier, seed, mod.LEVEL, cov, wall, len(new_lines), mod.ASSUMPTIONS)
+            core.write_evidence(prop, tier, seed, mod.LEVEL, cov, wall, len(new_lines), list(mod.ASSUMPTIONS) + [
+                'in simulator processes numpy.linalg.svd refuses NaN/Inf input at once with LinAlgError (LAPACK can spin forever on it, where no alarm reaches)'])
     print('DONE property=%s runs=%d evaluations=%d distinct=%d violations_new=%d known=%d harness=%d wall=%.1fs' % (
         prop, len(results), evals, len(keys), len(new_lines), len(known_lines), len(harness), wall))
     if harness:
